@@ -466,6 +466,9 @@ func judgeHistory(c HistoryCase) (vs []evid.Violation) {
 			fmt.Fprintf(os.Stderr, "INFRASTRUCTURE: %v\n", err)
 			os.Exit(2)
 		}
+		if strings.Contains(err.Error(), "address already in use") || strings.Contains(err.Error(), "no free loopback port") {
+			return []evid.Violation{evid.Infra("no TCP port could be won for the ffsigner process: %v", err)}
+		}
 		return []evid.Violation{evid.V("process-starts", "the ffsigner process does not come up: %v", err)}
 	}
 	in.Backend.Install(&proc.Script{Default: proc.Reply{Kind: "echo"}, NonceDefault: proc.ResultReply(`"0x0"`), NonceOther: proc.ResultReply(`"0x0"`)})
